@@ -39,7 +39,7 @@ def namespaces():
 
 class Call:
     def __init__(self, name, fn, shapes, dom=(-2.0, 2.0), doms=None, desc=None, feats=None, avoid=(), prep=None,
-                 cplx=True, margin=0.08, nosame=False, kink=None):
+                 cplx=True, margin=0.08, nosame=False, kink=None, cdom=None):
         self.name = name
         self.fn = fn
         self.shapes = [tuple(s) for s in shapes]
@@ -53,6 +53,7 @@ class Call:
         self.margin = margin
         self.nosame = nosame
         self.kink = kink  # callable(xs, case) -> xs at an explicitly handled non-smooth point
+        self.cdom = cdom  # real-part domain of COMPLEX arguments (their imaginary parts stay 0.3 away from the real axis)
 
 
 class TemplateDef:
@@ -198,7 +199,10 @@ def build_values(call, vseed, cmask=None):
             xs.append(v[0])
             sep = min(sep, sp)
     if any(cmask):
-        ims, _ = values.generic(vseed, call.shapes, -1.5, 1.5, stream=7)
+        ims, _ = values.generic(vseed, call.shapes, -1.5, 1.5, stream=7, avoid=(0.0,), margin=0.3)
+        if call.cdom is not None:
+            res, _ = values.generic(vseed, call.shapes, call.cdom[0], call.cdom[1], stream=8, avoid=(0.0,), margin=0.3)
+            xs = [re if c else x for x, re, c in zip(xs, res, cmask)]
         xs = [x + 1j * im if c else x for x, im, c in zip(xs, ims, cmask)]
     if call.prep is not None:
         xs = list(call.prep(xs))
